@@ -241,6 +241,9 @@ uint8_t vf_stream_byte(std::ostream * os, size_t i) { return (uint8_t) static_ca
 void vf_stream_set_byte(std::istream * is, size_t i, uint8_t b) { static_cast<prefix_buf *>(is->rdbuf())->data[i] = (char)b; }
 void vf_stream_set_u32(std::istream * is, size_t i, uint32_t w) { std::memcpy(&static_cast<prefix_buf *>(is->rdbuf())->data[i], &w, 4); }
 
+size_t vf_istream_pos(std::istream * is) { return static_cast<prefix_buf *>(is->rdbuf())->pos; }
+size_t vf_istream_nreads(std::istream * is) { return static_cast<prefix_buf *>(is->rdbuf())->nreads; }
+
 void vf_main();
 }
 
